@@ -96,7 +96,7 @@ func runC12(p *Prog, r *Report) {
 			pops := f.Ev("store", "*.accepters")
 			for _, st := range pops {
 				for _, rt := range f.Ev("return", "") {
-					if len(rt.Args) == 2 && rt.Args[1] != "nil" && CanPrecede(reach, st.In, rt.In) {
+					if len(rt.Args) == 2 && rt.Args[1] != "nil" && CanPrecede(reach, st.In, rt.In) && FeasiblyPrecedes(st.In, rt.In) {
 						bad = "the accepter taken at " + p.InstrPos(st.In) + " can be followed by the error return at " + p.InstrPos(rt.In)
 					}
 				}
